@@ -303,6 +303,15 @@ fn exhaustive(depth2: bool, lv: &Leaves) -> Vec<(Prog, bool)> {
                 out.push((Prog::Coalesce(bx(&Prog::Bin(0, bx(&s1), bx(&s1)))), false));
                 out.push((Prog::Ite(bx(&i2), bx(&s1), bx(&s2)), false));
             }
+            // nested ite on the same condition: an entry whose guard is unsatisfiable (c and not c), then
+            // combined with a summary that shares the remaining guards
+            let nested = Prog::Ite(bx(c1), bx(&Prog::Ite(bx(c1), bx(&vl[0]), bx(&vl[1]))), bx(&vl[2]));
+            let plain = Prog::Ite(bx(c1), bx(&vl[2]), bx(&vl[0]));
+            for o in 0..3u8 {
+                out.push((Prog::Bin(o, bx(&nested), bx(&plain)), false));
+                out.push((Prog::Bin(o, bx(&plain), bx(&nested)), false));
+            }
+            out.push((Prog::Coalesce(bx(&nested)), false));
         }
     }
     out
